@@ -50,12 +50,15 @@ def run (kv : List (String × String)) : IO Res := do
     if j > 0 && ((results.take j).getLast?.getD "").startsWith "disturbed-" then tags := "after.failed" :: tags
     let some img ← loadImg p | return .bad s!"image {j}"
     let some can := canonical img | return .propfail s!"dump #{j} of the reused writer does not decode" tags
-    if can != fcan then
+    -- (a target that changed its address space before the last request: only that request saw what the fresh writer sees)
+    let grown := get kv "mutated" == some "2"
+    if grown then tags := "target.grown" :: tags
+    if can != fcan && !(grown && j + 1 < imgs.length) then
       return .propfail s!"dump #{j} of the reused writer differs from a fresh writer's dump: {firstDiff can fcan}" tags
     -- the last request and the fresh writer's see the same (parked) target: the copies of the target's files that do
     -- not change by themselves must be the same bytes (the target's limits were changed just before that request)
     if j + 1 == imgs.length then
-      if get kv "mutated" == some "1" then tags := "target.mutated" :: tags
+      if get kv "mutated" == some "1" || get kv "mutated" == some "2" then tags := "target.mutated" :: tags
       for ty in [ST_LINUX_LSB_RELEASE, ST_LINUX_CMD_LINE, ST_LINUX_ENVIRON, ST_LINUX_AUXV, ST_LINUX_MAPS, ST_MOZ_LINUX_LIMITS] do
         let a := rawStream img ty
         let b := rawStream fimg ty
